@@ -462,6 +462,312 @@ theorem blob_entry (pre : List Str) (hp : nonEmptyPrefix pre = true) (hn : hasNe
     rw [hre]
     simp [toDigest, hh.2]
 
+/-! ### (3) "paths that do not follow the layout are rejected"
+
+`layoutKinds p` (Model/RegistryPaths.lean) lists the layout entries `p` is a well-formed instance of; it is the
+storage layout itself, not a reading of the regexps.  Every built path is in the layout (`*_layout` theorems),
+so the target below is not vacuous; the code does NOT satisfy it (known finding, see known/C38.json). -/
+
+theorem goodRepoDir_repoDir {pre repo : List Str} (c : Ctx pre repo) : goodRepoDir (repoDir pre repo) = true := by
+  have htw : (repoDir pre repo).takeWhile (fun x => x != sRepositories) = pre := by
+    unfold repoDir
+    rw [List.takeWhile_append_of_pos (fun x hx => by
+      have : x ≠ sRepositories := fun e => c.pre_norepo (e ▸ hx)
+      simpa using this)]
+    simp
+  have hdw : (repoDir pre repo).dropWhile (fun x => x != sRepositories) = sRepositories :: repo := by
+    unfold repoDir
+    rw [List.dropWhile_append_of_pos (fun x hx => by
+      have : x ≠ sRepositories := fun e => c.pre_norepo (e ▸ hx)
+      simpa using this)]
+    simp
+  have hre : repo.isEmpty = false := by cases hr : repo with | nil => exact absurd hr c.repo_ne | cons _ _ => rfl
+  simp only [goodRepoDir, htw, hdw, goodRoot, c.pre_ok, c.pre_nl, c.repo_nl, hre, Bool.not_false, Bool.and_true, Bool.true_and,
+    Bool.and_eq_true, List.all_eq_true, Bool.not_eq_true']
+  refine ⟨fun x hx => c.pre_nomarker x hx, fun x hx => ?_⟩
+  have := c.repo_elem x hx
+  refine ⟨?_, this.2.2⟩
+  cases x with | nil => exact absurd rfl this.1 | cons _ _ => rfl
+
+theorem mem_layoutKinds (f : List Str → Option (PType × Str)) (hf : f ∈ layoutEntries) (p : Str) (r : PType × Str)
+    (h : f (splitOn '/' p).reverse = some r) : r ∈ layoutKinds p :=
+  List.mem_filterMap.mpr ⟨f, hf, h⟩
+
+section layout
+variable {pre repo : List Str} (c : Ctx pre repo)
+include c
+
+theorem manifestsDir_layout (st : Str) (hst : st = sTags ∨ st = sRevisions) :
+    (PType.manifests, st) ∈ layoutKinds (joinSlash (repoDir pre repo ++ [sManifests, st])) := by
+  have hs := split_built c [sManifests, st] (by intro x hx; rcases hst with rfl | rfl <;> (revert x; decide))
+  apply mem_layoutKinds leManifestsDir (by simp [layoutEntries])
+  rw [hs, List.reverse_append]
+  simp [leManifestsDir, goodRepoDir_repoDir c, hst]
+
+theorem tagCurrent_layout (tag : Str) (ht : ValidTag tag) :
+    (PType.manifests, sTags) ∈ layoutKinds (joinSlash (repoDir pre repo ++ [sManifests, sTags, tag, sCurrent, sLink])) := by
+  obtain ⟨ht1, ht2, ht3⟩ := ht
+  have hte : tag.isEmpty = false := by cases tag with | nil => exact absurd rfl ht1 | cons _ _ => rfl
+  have hs := split_built c [sManifests, sTags, tag, sCurrent, sLink] (by
+    intro x hx; simp only [List.mem_cons, List.not_mem_nil, or_false] at hx
+    rcases hx with rfl | rfl | rfl | rfl | rfl <;> first | exact ht2 | decide)
+  apply mem_layoutKinds leTagCurrent (by simp [layoutEntries])
+  rw [hs, List.reverse_append]
+  simp [leTagCurrent, goodRepoDir_repoDir c, validTagB, hte, ht3]
+
+theorem tagIndex_layout (tag h : Str) (ht : ValidTag tag) (hh : ValidHex h) :
+    (PType.manifests, sTags) ∈ layoutKinds (joinSlash (repoDir pre repo ++ [sManifests, sTags, tag, sIndex, sSha256, h, sLink])) := by
+  obtain ⟨ht1, ht2, ht3⟩ := ht
+  have hte : tag.isEmpty = false := by cases tag with | nil => exact absurd rfl ht1 | cons _ _ => rfl
+  have hh1 := (validHex_facts h hh).1
+  have hs := split_built c [sManifests, sTags, tag, sIndex, sSha256, h, sLink] (by
+    intro x hx; simp only [List.mem_cons, List.not_mem_nil, or_false] at hx
+    rcases hx with rfl | rfl | rfl | rfl | rfl | rfl | rfl <;> first | exact ht2 | exact hh1 | decide)
+  apply mem_layoutKinds leTagIndex (by simp [layoutEntries])
+  rw [hs, List.reverse_append]
+  simp [leTagIndex, goodRepoDir_repoDir c, validTagB, validHexB, hte, ht3, hh.1, hh.2]
+
+theorem revision_layout (h : Str) (hh : ValidHex h) :
+    (PType.manifests, sRevisions) ∈ layoutKinds (joinSlash (repoDir pre repo ++ [sManifests, sRevisions, sSha256, h, sLink])) := by
+  have hh1 := (validHex_facts h hh).1
+  have hs := split_built c [sManifests, sRevisions, sSha256, h, sLink] (by
+    intro x hx; simp only [List.mem_cons, List.not_mem_nil, or_false] at hx
+    rcases hx with rfl | rfl | rfl | rfl | rfl <;> first | exact hh1 | decide)
+  apply mem_layoutKinds leRevision (by simp [layoutEntries])
+  rw [hs, List.reverse_append]
+  simp [leRevision, goodRepoDir_repoDir c, validHexB, hh.1, hh.2]
+
+theorem layer_layout (h l : Str) (hh : ValidHex h) (hl : l = sLink ∨ l = sData) :
+    (PType.layers, l) ∈ layoutKinds (joinSlash (repoDir pre repo ++ [sLayers, sSha256, h, l])) := by
+  have hh1 := (validHex_facts h hh).1
+  have hs := split_built c [sLayers, sSha256, h, l] (by
+    intro x hx; simp only [List.mem_cons, List.not_mem_nil, or_false] at hx
+    rcases hl with rfl | rfl <;> rcases hx with rfl | rfl | rfl | rfl <;> first | exact hh1 | decide)
+  apply mem_layoutKinds leLayer (by simp [layoutEntries])
+  rw [hs, List.reverse_append]
+  simp [leLayer, goodRepoDir_repoDir c, validHexB, hh.1, hh.2, hl]
+
+theorem uploadFile_layout (u d : Str) (hu : ValidUUID u) (hd : d = sData ∨ d = sStartedat) :
+    (PType.uploads, d) ∈ layoutKinds (joinSlash (repoDir pre repo ++ [sUploads, u, d])) := by
+  obtain ⟨hu1, hu2, hu3⟩ := hu
+  have hue : u.isEmpty = false := by cases u with | nil => exact absurd rfl hu1 | cons _ _ => rfl
+  have hs := split_built c [sUploads, u, d] (by
+    intro x hx; simp only [List.mem_cons, List.not_mem_nil, or_false] at hx
+    rcases hd with rfl | rfl <;> rcases hx with rfl | rfl | rfl <;> first | exact hu2 | decide)
+  apply mem_layoutKinds leUploadFile (by simp [layoutEntries])
+  rw [hs, List.reverse_append]
+  simp [leUploadFile, goodRepoDir_repoDir c, validUUIDB, hue, hu3, hd]
+
+theorem uploadHash_layout (u a : Str) (hu : ValidUUID u) (ha : ValidAlgo a) :
+    (PType.uploads, sHashstates) ∈ layoutKinds (joinSlash (repoDir pre repo ++ [sUploads, u, sHashstates, a])) := by
+  obtain ⟨hu1, hu2, hu3⟩ := hu
+  have haa : alnum1 a = true := ha
+  have hue : u.isEmpty = false := by cases u with | nil => exact absurd rfl hu1 | cons _ _ => rfl
+  have ha3 := (alnum_ne_uploads a ha).2.2.1
+  have hs := split_built c [sUploads, u, sHashstates, a] (by
+    intro x hx; simp only [List.mem_cons, List.not_mem_nil, or_false] at hx
+    rcases hx with rfl | rfl | rfl | rfl <;> first | exact hu2 | exact ha3 | decide)
+  apply mem_layoutKinds leUploadHash (by simp [layoutEntries])
+  rw [hs, List.reverse_append]
+  simp [leUploadHash, goodRepoDir_repoDir c, validUUIDB, hue, hu3, haa]
+
+theorem uploadHashOffset_layout (u a o : Str) (hu : ValidUUID u) (ha : ValidAlgo a) (ho : ValidOffset o) :
+    (PType.uploads, sHashstates) ∈ layoutKinds (joinSlash (repoDir pre repo ++ [sUploads, u, sHashstates, a, o])) := by
+  obtain ⟨hu1, hu2, hu3⟩ := hu
+  have haa : alnum1 a = true := ha
+  have hoo : digits1 o = true := ho
+  have hue : u.isEmpty = false := by cases u with | nil => exact absurd rfl hu1 | cons _ _ => rfl
+  have ha3 := (alnum_ne_uploads a ha).2.2.1
+  have ho1 := (digits_facts o ho).1
+  have hs := split_built c [sUploads, u, sHashstates, a, o] (by
+    intro x hx; simp only [List.mem_cons, List.not_mem_nil, or_false] at hx
+    rcases hx with rfl | rfl | rfl | rfl | rfl <;> first | exact hu2 | exact ha3 | exact ho1 | decide)
+  apply mem_layoutKinds leUploadHashOffset (by simp [layoutEntries])
+  rw [hs, List.reverse_append]
+  simp [leUploadHashOffset, goodRepoDir_repoDir c, validUUIDB, hue, hu3, haa, hoo]
+
+end layout
+
+theorem blob_layout (pre : List Str) (hp : nonEmptyPrefix pre = true) (hn : hasNewline (joinSlash pre) = false)
+    (hps : ∀ x ∈ pre, '/' ∉ x) (hpm : ∀ x ∈ pre, isMarker x = false) (h : Str) (hh : ValidHex h) :
+    (PType.blobs, sData) ∈ layoutKinds (joinSlash (pre ++ [sBlobs, sSha256, h.take 2, h, sData])) := by
+  have hh1 := (validHex_facts h hh).1
+  have ht2s : '/' ∉ h.take 2 := fun hm => hh1 (List.mem_of_mem_take hm)
+  have hs : splitOn '/' (joinSlash (pre ++ [sBlobs, sSha256, h.take 2, h, sData])) = pre ++ [sBlobs, sSha256, h.take 2, h, sData] :=
+    split_comps _ (by simp) (fun x hx => by
+      rcases List.mem_append.mp hx with hx | hx
+      · exact hps x hx
+      · simp only [List.mem_cons, List.not_mem_nil, or_false] at hx
+        rcases hx with rfl | rfl | rfl | rfl | rfl <;> first | exact ht2s | exact hh1 | decide)
+  apply mem_layoutKinds leBlob (by simp [layoutEntries])
+  rw [hs, List.reverse_append]
+  have hall : pre.all (fun c => !isMarker c) = true := List.all_eq_true.mpr (fun x hx => by simp [hpm x hx])
+  simp [leBlob, goodRoot, validHexB, hh.1, hh.2, hp, hn, hall]
+
+/-- the full statement of the rejection clause: whatever ParsePath accepts is a well-formed instance of that
+layout entry -/
+def parse_only_built_target : Prop :=
+  ∀ (p : Str) (r : PType × Str), parsePath p = .ok r → r ∈ layoutKinds p
+
+def wBlob : Str := ['/','v','2','/','b','l','o','b','s','/','s','h','a','2','5','6','/','z','z','/','q','q','/','d','a','t','a']
+def wManifest : Str := joinSlash [[], ['v','2'], sRepositories, ['r'], sManifests, sTags, ['t'], ['g','a','r','b','a','g','e'], ['e','x','t','r','a'], sLink]
+def wNoRepo : Str := joinSlash [[], ['x'], sManifests, sTags]
+def wLayer : Str := joinSlash [[], ['v','2'], sRepositories, ['r'], sLayers, sSha256, ['z','z','z'], sLink]
+def wUpload : Str := joinSlash [[], ['x'], sUploads, ['u'], sData]
+
+/-- ParsePath accepts paths outside the layout: a blob path whose shard directory is unrelated to a digest that is
+not a digest; a tag link with arbitrary elements in the middle; a manifests directory under no repository; a layer
+link with a three-character non-hexadecimal "digest"; an upload under no repository -/
+theorem not_parse_only_built : ¬ parse_only_built_target := by
+  intro h
+  have := h wBlob (.blobs, sData) (by decide)
+  revert this; decide
+
+theorem nonlayout_witnesses :
+    parsePath wBlob = .ok (.blobs, sData) ∧ layoutKinds wBlob = [] ∧
+    parsePath wManifest = .ok (.manifests, sTags) ∧ layoutKinds wManifest = [] ∧
+    parsePath wNoRepo = .ok (.manifests, sTags) ∧ layoutKinds wNoRepo = [] ∧
+    parsePath wLayer = .ok (.layers, sLink) ∧ layoutKinds wLayer = [] ∧
+    parsePath wUpload = .ok (.uploads, sData) ∧ layoutKinds wUpload = [] := by decide
+
+/-! what ParsePath does guarantee about an accepted path -/
+
+theorem manifestsScan_ok : ∀ (L after : List Str) (st : Str), matchManifestsScan L after = .ok st →
+    sManifests ∈ L ∧ (st = sTags ∨ st = sRevisions) := by
+  intro L
+  induction L with
+  | nil => intro after st h; cases after <;> simp [matchManifestsScan] at h
+  | cons x xs ih =>
+    intro after st h
+    cases after with
+    | nil =>
+      simp only [matchManifestsScan] at h
+      exact ⟨List.mem_cons_of_mem _ (ih _ _ h).1, (ih _ _ h).2⟩
+    | cons s tail =>
+      simp only [matchManifestsScan] at h
+      split at h
+      · rename_i hc
+        split at h
+        · cases h
+        · cases h; exact ⟨by simp [hc.1], hc.2.1⟩
+      · exact ⟨List.mem_cons_of_mem _ (ih _ _ h).1, (ih _ _ h).2⟩
+
+theorem uploadScan_ok (accept : List Str → Option UploadTail) : ∀ (L after : List Str) (r : Str × UploadTail),
+    uploadScan accept L after = .ok r → sUploads ∈ L := by
+  intro L
+  induction L with
+  | nil => intro after r h; cases after <;> simp [uploadScan] at h
+  | cons x xs ih =>
+    intro after r h
+    cases after with
+    | nil => simp only [uploadScan] at h; exact List.mem_cons_of_mem _ (ih _ _ h)
+    | cons u tail =>
+      simp only [uploadScan] at h
+      split at h
+      · rename_i t ht
+        split at h
+        · exact List.mem_cons_of_mem _ (ih _ _ h)
+        · split at h
+          · cases h
+          · split at ht
+            · rename_i hc; simp [hc.1]
+            · cases ht
+      · exact List.mem_cons_of_mem _ (ih _ _ h)
+
+/-- **C38 rejection, the part that holds**: an accepted path always carries the marker element of its kind and one
+of the kind's subtypes; for layers and blobs the last elements have the entry's skeleton.  What is NOT checked by
+the code (and makes the target false): a `repositories` element and a well-formed repository before the marker, the
+length / hexadecimal alphabet of digests, the shard directory being the digest's first two characters, and the
+elements between `tags/` and `/link`. -/
+theorem parse_only_built_partial (p : Str) (k : PType) (st : Str) (h : parsePath p = .ok (k, st)) :
+    (k = .manifests → sManifests ∈ splitOn '/' p ∧ (st = sTags ∨ st = sRevisions)) ∧
+    (k = .uploads → sUploads ∈ splitOn '/' p ∧ (st = sData ∨ st = sStartedat ∨ st = sHashstates)) ∧
+    (k = .layers → ∃ front hx, splitOn '/' p = front ++ [sLayers, sSha256, hx, st] ∧ lowerAlnum1 hx = true ∧ (st = sLink ∨ st = sData)) ∧
+    (k = .blobs → ∃ front sh hx, splitOn '/' p = front ++ [sBlobs, sSha256, sh, hx, sData] ∧ st = sData ∧
+        lowerAlnum1 hx = true ∧ sh.length = 2 ∧ sh.all isLowerAlnum = true) := by
+  unfold parsePath at h
+  cases hm : matchManifests p with
+  | ok s =>
+    rw [hm] at h; cases h
+    obtain ⟨h1, h2⟩ := manifestsScan_ok _ _ _ hm
+    exact ⟨fun _ => ⟨by simpa using h1, h2⟩, (fun e => nomatch e), (fun e => nomatch e), (fun e => nomatch e)⟩
+  | unsupported => rw [hm] at h; cases h
+  | noMatch =>
+    rw [hm] at h
+    cases hu : matchUploads p with
+    | ok s =>
+      rw [hu] at h; cases h
+      refine ⟨(fun e => nomatch e), fun _ => ?_, (fun e => nomatch e), (fun e => nomatch e)⟩
+      unfold matchUploads at hu
+      cases hsc : uploadScan uploadTailLoose? (splitOn '/' p).reverse [] with
+      | noMatch => rw [hsc] at hu; cases hu
+      | unsupported => rw [hsc] at hu; cases hu
+      | ok r =>
+        have hmem := uploadScan_ok _ _ _ _ hsc
+        rw [hsc] at hu
+        obtain ⟨u, t⟩ := r
+        refine ⟨by simpa using hmem, ?_⟩
+        cases t with
+        | data => cases hu; exact Or.inl rfl
+        | startedat => cases hu; exact Or.inr (Or.inl rfl)
+        | hashstates a o =>
+          simp only at hu
+          split at hu <;> first | (cases hu; exact Or.inr (Or.inr rfl)) | cases hu
+    | unsupported => rw [hu] at h; cases h
+    | noMatch =>
+      rw [hu] at h
+      cases hl : layerRe p with
+      | ok r =>
+        rw [hl] at h
+        obtain ⟨hx, l⟩ := r
+        cases h
+        refine ⟨(fun e => nomatch e), (fun e => nomatch e), fun _ => ?_, (fun e => nomatch e)⟩
+        unfold layerRe at hl
+        split at hl
+        · rename_i l' h' s m pre hrev
+          split at hl
+          · rename_i hc
+            have hw : withPrefix pre.reverse (Res.ok (h', l')) = .ok (hx, st) := hl
+            unfold withPrefix at hw
+            split at hw
+            · cases hw
+            · split at hw
+              · cases hw
+              · cases hw
+                refine ⟨pre.reverse, hx, ?_, hc.2.1, hc.1⟩
+                have := congrArg List.reverse hrev
+                simp only [List.reverse_reverse, List.reverse_cons] at this
+                rw [this, hc.2.2.1, hc.2.2.2]; simp
+          · cases hl
+        · cases hl
+      | unsupported => rw [hl] at h; cases h
+      | noMatch =>
+        rw [hl] at h
+        cases hb : blobDigestRe p with
+        | ok hx =>
+          rw [hb] at h; cases h
+          refine ⟨(fun e => nomatch e), (fun e => nomatch e), (fun e => nomatch e), fun _ => ?_⟩
+          unfold blobDigestRe at hb
+          split at hb
+          · rename_i d h' sh s b pre hrev
+            split at hb
+            · rename_i hc
+              have hw : withPrefix pre.reverse (Res.ok h') = .ok hx := hb
+              unfold withPrefix at hw
+              split at hw
+              · cases hw
+              · split at hw
+                · cases hw
+                · cases hw
+                  refine ⟨pre.reverse, sh, hx, ?_, rfl, hc.2.1, hc.2.2.1, hc.2.2.2.1⟩
+                  have := congrArg List.reverse hrev
+                  simp only [List.reverse_reverse, List.reverse_cons] at this
+                  rw [this, hc.1, hc.2.2.2.2.1, hc.2.2.2.2.2]; simp
+            · cases hb
+          · cases hb
+        | unsupported => rw [hb] at h; cases h
+        | noMatch => rw [hb] at h; cases h
+
 /-! ### non-vacuity and the former behaviour -/
 
 def exPre : List Str := [[], ['d','o','c','k','e','r'], ['r','e','g','i','s','t','r','y'], ['v','2']]
